@@ -16,7 +16,7 @@ import traceback
 
 from . import smt as z3
 from .core import Program, Unsupported, BoundExceeded, explore
-from .enums import scan_enums
+from .enums import scan_enums, scan_structs, scan_type_info
 
 VERIF = os.path.dirname(os.path.dirname(os.path.abspath(__file__)))
 REPO = os.environ.get("VERIF_REPO", "/repo")
@@ -253,6 +253,15 @@ class Run:
         ev.update(extra_enums or {})
         P = Program(texts, enum_variants=ev, src_root=REPO)
         P.run = self
+        P.struct_fields, P.type_defaults_src, P.type_aliases = {}, {}, {}
+        for c in (src_crates or crates):
+            if c in CRATE_DIRS:
+                d = os.path.join(REPO, CRATE_DIRS[c], "src")
+                for k, v in scan_structs(d).items():
+                    P.struct_fields.setdefault(k, []).extend(v)
+                dflt, al = scan_type_info(d)
+                P.type_defaults_src.update(dflt)
+                P.type_aliases.update(al)
         return P
 
     def encoded(self, P, names):
